@@ -46,13 +46,14 @@ Definition op_of_val (v : val) : op :=
   | 23%nat => DRDataBlock (z 1%nat)
   | 24%nat => DRClose
   | 25%nat => DRFree
-  | 26%nat => DWHeader (z 1%nat) (b 2%nat) (z 3%nat) (b 4%nat)
+  | 26%nat => DWHeader (z 1%nat) (b 2%nat) (b 3%nat) (z 4%nat) (b 5%nat) (b 6%nat)
   | 27%nat => DWData (z 1%nat)
   | 28%nat => DWDataBlock (z 1%nat)
-  | 29%nat => DWFinishEntry (z 1%nat)
-  | 30%nat => DWClose (z 1%nat)
-  | 31%nat => DWFree (z 1%nat)
+  | 29%nat => DWFinishEntry (z 1%nat) (b 2%nat)
+  | 30%nat => DWClose (z 1%nat) (b 2%nat)
+  | 31%nat => DWFree (z 1%nat) (b 2%nat)
   | 32%nat => MFree
+  | 34%nat => WOpenMem (z 1%nat) (z 2%nat)
   | 33%nat => OPair (str_of_bytes (bval (vnth l 1))) (str_of_bytes (bval (vnth l 2))) (nval (vnth l 3))
   | _ => ONoCheck (-9996)
   end.
